@@ -47,6 +47,17 @@ def matrix_part(ctx):
         systls.compare(ctx, cmd, ml, il, {"harness": "sys_tls", "ops": [last_d, cmd], "model_out": ml, "impl_out": il})
         ctx.count("tls.verdict." + ml.replace("server=ok ", "").replace(" ", "/"))
     ctx.sample({"harness": "sys_tls", "cmds": cmds[1:4], "model_out": model[1:4], "impl_out": out[1:4]}, cap=8)
+    # policy isolation between sockets that share credentials (and therefore the cached SSL_CTX)
+    for k in range(2 if quick else 24):
+        icmds = systls.gen_isolation_history(ctx.rng.fork("iso%d" % k), ctx)
+        rc, iout, err = systls.run(exe, icmds, ctx, timeout=1200)
+        ctx.traces += 1
+        if rc != 0 or len(iout) != len(icmds):
+            ctx.violation("sys_tls:crash:" + common.crash_site(err), "sys_tls died at %r" % icmds[min(len(iout), len(icmds) - 1)],
+                          {"harness": "sys_tls", "ops": icmds[:len(iout) + 1], "stderr": err[-3000:]})
+            break
+        imodel = common.run_model("tlspolicy", "\n".join(icmds) + "\n")
+        systls.check_switch(ctx, icmds, imodel, iout)
     # session resumption must not bypass a socket's policy
     rcmds = ["D a1 rootA crlA-empty"] + [c for c, _ in RESUME]
     rc, out, err = systls.run(exe, rcmds, ctx)
